@@ -222,6 +222,8 @@ class Ctx:
         """Run the harness; returns the parsed REPORT object."""
         vh = self.build_harness(race=race)
         env = self.goenv()
+        env["VERIF_KNOWN"] = os.path.join(VERIF, "known_findings.json")
+        env["VERIF_PID"] = self.pid
         if env_extra:
             env.update(env_extra)
         t0 = time.time()
@@ -272,20 +274,16 @@ class Ctx:
         known = self.load_known()
         violations = []
         known_hits = {}
+        kmap = {k["id"]: k for k in known}
         for g in self.groups:
-            target, rule_label, klass = [x.strip() for x in g["key"].split(" | ")]
-            hit = None
-            for k in known:
-                if k.get("target") == target and k.get("class") == klass and \
-                        (k.get("rule") == rule_label or
-                         (k.get("rule_prefix") and rule_label.startswith(k["rule_prefix"]))):
-                    hit = k
-                    break
-            if hit is not None:
-                known_hits.setdefault(hit["id"], [hit, 0])
-                known_hits[hit["id"]][1] += g["group"]["count"]
-            else:
-                violations.append(g)
+            if g["key"].startswith("KNOWN:"):
+                kid = g["key"][6:]
+                hit = kmap.get(kid)
+                if hit is not None:
+                    known_hits.setdefault(kid, [hit, 0])
+                    known_hits[kid][1] += g["group"]["count"]
+                    continue
+            violations.append(g)
         for kid, (k, n) in sorted(known_hits.items()):
             print("KNOWN-FINDING: property=%s %s [%s; %d case(s) this run]"
                   % (self.pid, k["what"], kid, n), flush=True)
